@@ -96,6 +96,42 @@ def fake_aligner_call(command, stdout=None, stderr=None):
     return 0
 
 
+def mapper_stand_ins(RM):
+    """stand-ins for minimap2 (index building and mapping), samtools sort and samtools index under the REAL index_reference / align_fasta:
+       each program reads its input file and writes its output file in place, in two steps, as the real programs do"""
+    def call(command, stdout=None, stderr=None):
+        if "-d" in command:
+            return fake_aligner_call(command, stdout, stderr)
+        with open(command[2], "r") as f:          # minimap2 INDEX READS -a ...
+            reads = f.read()
+        stdout.write("sam-of:")
+        stdout.flush()
+        stdout.write(reads + ";end")
+        # the handle was created in the argument list of the call: CPython finalises it as soon as the call returns
+        stdout.close()
+        return 0
+
+    def run(command, capture_output=False):
+        return SimpleNamespace(returncode=0, stdout=b"2.26-stand-in")
+
+    def sort(*a):
+        with open(a[-1], "r") as f:
+            sam = f.read()
+        with open(a[a.index("-o") + 1], "w") as f:
+            f.write("bam-of:")
+            f.flush()
+            f.write(sam[len("sam-of:"):])
+
+    def index(*a):
+        with open(a[-1], "r") as f:
+            bam = f.read()
+        with open(a[-1] + ".bai", "w") as f:
+            f.write("bai-of:" + bam)
+    RM.get_aligner = lambda name: name
+    RM.subprocess = SimpleNamespace(call=call, run=run)
+    RM.pysam = SimpleNamespace(sort=sort, index=index, SamtoolsError=RuntimeError)
+
+
 def make_editor(path, content):
     """an actor outside IsoQuant that replaces an input file while runs are in progress (a new release of the annotation is copied over)"""
     def body(sched):
@@ -159,7 +195,7 @@ def make_process(pid, gtf, outdir, clean_start=False, with_mapper_caches=False, 
             res["index_path"] = idx
             with open(args.reference, "r") as f:
                 res["ref_end"] = f.read()
-        elif with_mapper_caches == "alignment":
+        elif with_mapper_caches in ("alignment", "alignment2"):
             # FASTQ mode: start-up of the run in its folder (what isoquant.check_and_load_args does for every new run), then the real
             # DataSetReadMapper.map_reads with a stand-in for the aligner binary; afterwards the run opens the alignments it was given
             import src.read_mapper as RM
@@ -177,23 +213,24 @@ def make_process(pid, gtf, outdir, clean_start=False, with_mapper_caches=False, 
             with open(fq, "r") as f:
                 res["fq_start"] = f.read()
 
-            def fake_align(aligner, fastq_file, annotation_file, a, label, out_dir):
-                bam = os.path.join(out_dir, "%s_reads1_%d.bam" % (label, os.getpid()))
-                with open(fastq_file, "r") as f:
-                    reads = f.read()
-                with open(bam, "w") as f:
-                    f.write("bam-of:")
-                    f.flush()
-                    f.write(reads + ";end")
-                return bam
-            RM.align_fasta = fake_align
+            # the REAL align_fasta runs over stand-ins for the external programs (see mapper_stand_ins)
+            mapper_stand_ins(RM)
+            args.data_type = "nanopore"
+            args.threads = 1
+            args.stranded = "none"
+            if with_mapper_caches == "alignment2":
+                # an experiment with two read files
+                sample.file_list.append([V + "data/reads2.fq"])
             RM.find_annotation = lambda aligner, a: None
             mapper = RM.DataSetReadMapper.__new__(RM.DataSetReadMapper)
             mapper.aligner = "minimap2"
             data = RM.DataSetReadMapper.map_reads(mapper, args)
             res["bam_path"] = data.samples[0].file_list[0][0]
+            # what the next stage does with every alignment file: pysam.AlignmentFile(bam, require_index=True)
             with open(res["bam_path"], "r") as f:
                 res["bam_content"] = f.read()
+            with open(res["bam_path"] + ".bai", "r") as f:
+                res["bai_content"] = f.read()
             with open(fq, "r") as f:
                 res["fq_end"] = f.read()
         elif with_mapper_caches == "annotation":
@@ -303,6 +340,7 @@ def scenario(name):
             v.dirs.add(aux)
             bam = aux + "/OUT_reads1_7.bam"
             v.add(bam, "bam-of:x;end", mtime=34.0)
+            v.add(bam + ".bai", "bai-of:bam-of:x;end", mtime=34.2)
             v.add(aux + "/OUT_chr1_lock", "", mtime=34.5)
             key = "%s_aligned_to_%s" % (V + "data/reads1.fq", V + "data/ref1.mmi")
             v.files[CFG + "/alignment_config.json"].content = json.dumps({key: {
@@ -329,6 +367,9 @@ def scenario(name):
         # the read file is replaced by another one while run 1 aligns it; run 2 works on the same path
         return [(1, g(1), o(1), False, "alignment"), ("editor", V + "data/reads1.fq", "x-second-flowcell"), (2, g(1), o(2), False, "alignment")], \
             lambda v: base_init(v, cfg_exists=True)
+    if name == "alignment-two-files-vs-one":
+        # run 1 maps an experiment of two read files, run 2 one of them: it may be handed run 1's first alignment while run 1 maps the second
+        return [(1, g(1), o(1), False, "alignment2"), (2, g(1), o(2), False, "alignment")], lambda v: base_init(v, cfg_exists=True)
     if name == "alignment-two-fresh":
         return [(1, g(1), o(1), False, "alignment"), (2, g(1), o(2), False, "alignment")], lambda v: base_init(v, cfg_exists=True)
     if name == "reference-replaced-during-indexing":
@@ -425,7 +466,9 @@ def make_check(specs):
                 if r["index_content"] not in ("idx-of:%s;end" % r["ref_start"], "idx-of:%s;end" % r["ref_end"]):
                     out.append(("foreign-or-partial-index", "process %d loads the index %s whose content is %r, expected the complete index of its "
                                 "reference" % (pid, r["index_path"], r["index_content"])))
-            elif mapper == "alignment":
+            elif mapper in ("alignment", "alignment2"):
+                if r["bai_content"] != "bai-of:" + r["bam_content"]:
+                    out.append(("foreign-or-partial-alignment-index", "process %d opens %s.bai whose content is %r" % (pid, r["bam_path"], r["bai_content"])))
                 if r["bam_content"] not in ("bam-of:%s;end" % r["fq_start"], "bam-of:%s;end" % r["fq_end"]):
                     out.append(("foreign-or-partial-alignment", "process %d reads the alignment %s whose content is %r, expected the complete "
                                 "alignment of its reads" % (pid, r["bam_path"], r["bam_content"])))
@@ -492,6 +535,7 @@ def run(ctx):
     jobs.append(("index-two-fresh", 2 if quick else 3, 60000 if quick else 400000))
     jobs.append(("clean-start-rerun-vs-cached-alignment", 3 if quick else 4, 60000 if quick else 400000))
     jobs.append(("alignment-two-fresh", 2 if quick else 3, 60000 if quick else 400000))
+    jobs.append(("alignment-two-files-vs-one", 2 if quick else 3, 60000 if quick else 400000))
     jobs.append(("reads-replaced-during-alignment", 1 if quick else 2, 60000 if quick else 400000))
     jobs.append(("star-gtf-two-databases-same-mtime", 2 if quick else 3, 60000 if quick else 400000))
     jobs.append(("star-gtf-rewrite-vs-cached-reader", 3 if quick else 4, 60000 if quick else 400000))
